@@ -45,7 +45,9 @@ Add(f, k, d) == [f EXCEPT ![k] = @ + d]
 NoAl == [amt |-> 0, until |-> 0]
 Nz(a) == IF a.amt = 0 THEN NoAl ELSE a
 Eff(a, now) == IF a.until < now THEN NoAl ELSE Nz(a)
-AlEq(a, b) == a.amt = b.amt /\ (a.amt > 0 => a.until = b.until)
+\* observed allowance a agrees with the expected b: equal, or lapsed to zero (the fee token is the library's Base
+\* token; an allowance may be worth zero earlier than its live_until_ledger, never more than approved minus spent)
+AlEq(a, b) == (a.amt = b.amt /\ (a.amt > 0 => a.until = b.until)) \/ a.amt = 0
 EffAll(al, now) == [t \in DOMAIN al |-> [w \in DOMAIN al[t] |-> Eff(al[t][w], now)]]
 AlMapEq(A, B) == \A t \in DOMAIN B : \A w \in DOMAIN B[t] : AlEq(A[t][w], B[t][w])
 
@@ -83,7 +85,9 @@ ExpList(g, ev) ==
   ELSE IF ev.res = "ok" /\ ev.op.op = "disallow" THEN g.list \ {ev.op.tok}
   ELSE g.list
 
-GNext(g, ev) ==
+\* The allowances of the ghost follow the observation once a step has been judged: the monitors allow an
+\* allowance to lapse early, and the next step must be judged from what the token really holds.
+GNext0(g, ev) ==
   LET o == ev.op  now == ev.now
       g1 == [g EXCEPT !.al = EffAll(g.al, now)] IN
   IF ev.res # "ok" THEN g1 ELSE
@@ -91,6 +95,9 @@ GNext(g, ev) ==
     [] o.op = "approve" -> [g1 EXCEPT !.al[o.tok][o.user] = Nz([amt |-> o.max, until |-> now + o.de])]
     [] o.op \in {"allow", "disallow"} -> [g1 EXCEPT !.list = ExpList(g, ev)]
     [] OTHER -> g1
+GNext(g, ev) ==
+  LET n == GNext0(g, ev) IN
+  [n EXCEPT !.al = [t \in DOMAIN n.al |-> [w \in DOMAIN n.al[t] |-> Nz(ev.obs.al[t][w])]]]
 
 (* the user's signed authorization covers exactly the submitted (token, max, expiration,
    target, fn, args) ----------------------------------------------------------*)
@@ -146,7 +153,9 @@ Cons(m, g, ev) ==
          /\ AlMapEq(obs.al, EffAll(g.al, now))
          /\ obs.tg = g.tg
     \* what stays usable by the forwarder afterwards is what the strategy documents
-    [] m = "C19_allowance" -> AlMapEq(obs.al, ExpAl(g, o, now))
+    \* (the forwarder may have found the user's earlier allowance already lapsed)
+    [] m = "C19_allowance" -> \/ AlMapEq(obs.al, ExpAl(g, o, now))
+                              \/ AlMapEq(obs.al, ExpAl([g EXCEPT !.al[o.tok][o.user] = NoAl], o, now))
     [] m = "C19_allowlist" -> Accepted(g.list, o.tok)
     [] m = "C19_allowed_getter" ->
          /\ obs.list.getter_ok                      \* the getters answer (do not trap)
